@@ -1,1 +1,76 @@
 # register(...) calls, one per claimed property; executed by tools_gen_manifest.py
+TB = ("trusted base: CPython, expat/ElementTree, the simulator in /verif/sim (its determinism is self-tested: "
+      "./check selftest), the pristine-fork reference semantics of the library itself (differential oracle)")
+
+register('C04', 'exploration',
+         "SCOPED: seeded search over (document, delivery channel, delivery plan, sequence of entry points, source "
+         "reuse): every entry point on every channel must equal the eager bytes reference computed on a pristine fork, "
+         "and the reference itself must satisfy sentence 1 (is_valid/iter_errors/validate/strict decode/lax decode "
+         "agree; strict raises the first lax error). CLI exit-status arithmetic is not examined. Evidence, not proof.",
+         TB + "; documents come from the pool families and the repository corpus; ElementTree channels only for "
+         "documents without prefix-dependent values",
+         "deterministic simulation: simulated streams/files/peer with seeded delivery plans; pristine-fork differential oracle",
+         'DESIGN.md 3 C04')
+register('C06', 'exploration',
+         "seeded search over (document, API, lazy depth, thin, channel, delivery plan): a lazy resource fed by a simulated "
+         "stream/file/peer that hands the bytes over in seeded chunks (cuts inside tags, after the DOCTYPE, 1-8 byte "
+         "reads, 16 KiB blocks) must give the verdict, error sequence, decoded data, elements and namespaces of the eager "
+         "load of the same bytes. Depth 1 decides, depths 2-3 are reported. Evidence, not proof.",
+         TB + "; lazy error elements/paths are not compared (C19's unclaimed slice)",
+         "deterministic simulation: delivery-plan fault injection on the document source; eager pristine-fork reference",
+         'DESIGN.md 3 C06')
+register('C09', 'exploration',
+         "SCOPED to the history half: seeded assembly variants (load order through list constructor / add_schema / "
+         "import_schema / include_schema on a build=False schema), repeated build, clear+rebuild, copy, maps.copy, pickle "
+         "round trips inside usage histories and restart in a fresh interpreter under another PYTHONHASHSEED must give the "
+         "same global components and probe results as the canonical assembly. Textual permutation/splitting/spelling is "
+         "not examined.",
+         TB + "; probes run on forked copies so they do not form a usage history themselves",
+         "deterministic simulation: operation histories with lifecycle/restart steps; pristine-fork reference",
+         'DESIGN.md 3 C09')
+register('C10', 'exploration',
+         "seeded histories of 2-12 operations on ONE schema object with 0-3 abort faults inside operations (strict "
+         "failure, stop-validation hook, foreign exception from user hooks, I/O error on the stream, async abort raised "
+         "from the trace function at the k-th library call); every completed fault-free operation must equal the same "
+         "operation on a pristine forked schema; nothing is relaxed after an abort.",
+         TB,
+         "deterministic simulation: operation histories with crash-point (abort) injection; pristine-fork reference model",
+         'DESIGN.md 3 C10')
+register('C11', 'fault_enumeration',
+         "eof@k and flip@k at EVERY byte offset of three small documents (exhaustive block) plus seeded eof/flip/eio/"
+         "seekfail/close faults on every stream class and on files, x validation mode x eager/lazy x entry point; limit "
+         "sweeps at limit-1/limit/limit+1 for several MAX_XML_DEPTH / MAX_XML_ELEMENTS settings; stack sweeps below the "
+         "depth limit under three recursion limits and caller stack offsets; seeded lexical mutations. Oracle: library "
+         "exception or the injected instance, lax never raises for content, truncation never valid, limit rule, hang "
+         "watchdog, clean retry equals the reference.",
+         TB + "; wall-clock hang watchdog of 30 s; exactly-at-limit outcomes recorded not judged",
+         "deterministic simulation: enumerated + seeded stream fault injection, limit and stack sweeps",
+         'DESIGN.md 3 C11')
+register('C12', 'fault_enumeration',
+         "the product allow mode x reference mechanism x location spelling (x main source kind in the thorough tier) is "
+         "enumerated over a scratch file tree and a stub peer; fetch faults drive the fallback loop to a second candidate; "
+         "every file open / URL request the process attempts is logged by an audit hook + the stub peer and classified by "
+         "an independent classifier written against the statement (realpath/commonpath for the sandbox); non-influence is "
+         "checked through marker components.",
+         TB + "; the audit hook sees every open()/urlopen; symlink-free tree; vacuous (mechanism, spelling) pairs are excluded and listed",
+         "deterministic simulation: simulated file tree + stub network peer + audit-hook monitor, enumerated with fetch-fault injection",
+         'DESIGN.md 3 C12')
+register('C13', 'fault_enumeration',
+         "every (payload, channel) pair of the catalogue (9 entity/DTD payloads + 3 benign x 28 channels) is enumerated "
+         "each run; defuse mode, role (instance, lazy instance, via schema settings, main/included/imported schema), "
+         "prolog variant (BOM, UTF-16, latin-1, padding past 8/16/64 KiB) and delivery plan (incl. cuts inside '<!ENTITY') "
+         "are seeded; the peer may re-serve different bytes on the second open. Oracle: forbidden before expansion, no "
+         "fetch of the external target, nothing parsed contains the marker, benign documents parse identically.",
+         TB + "; a stream that only carries a remote .url attribute is not claimed as remote data",
+         "deterministic simulation: stream class/seekability/delivery seams, misbehaving peer (re-serve), audit-hook monitor",
+         'DESIGN.md 3 C13')
+register('C18', 'exploration',
+         "2-4 real threads, serialised by a seeded baton scheduler that pre-empts at every function call inside "
+         "xmlschema/elementpath and at every (replaced) library lock operation, run programs of 1-3 operations on one "
+         "shared schema: built before sharing, racing build, shared lazy resource; policies: uniform switching, PCT, "
+         "targeted, run-to-completion. Every result must equal the pristine sequential reference, the racing build must "
+         "run the build body exactly once into the sequential state, no deadlock, no residue in a sequential epilogue. "
+         "The recorded schedule is the replay trace and is minimised with ddmin.",
+         TB + "; interleavings below call granularity and the free-running stress clause are not explored",
+         "deterministic simulation: controlled thread scheduler (baton + sys.settrace), cooperative lock replacement, schedule record/replay",
+         'DESIGN.md 3 C18')
